@@ -521,7 +521,7 @@ func deflateSpecial(t *rapid.T, b []byte) []byte {
 
 func TestMutDeflate(t *testing.T) {
 	m := mutator{consts: deflateConsts(), special: deflateSpecial}
-	hx.Check(t, 4, func(t *rapid.T) {
+	hx.Check(t, 2, func(t *rapid.T) {
 		ctl := drawCtl(t, defCtl)
 		seed := seedDeflate(t, "seed")
 		body, n := mutate(t, seed, func() []byte { return seedDeflate(t, "other") }, m)
